@@ -66,6 +66,16 @@ NONTRIVIAL.update({
 })
 
 PROPERTIES = {
+    "C12": {
+        "runs": [{"suite": "slice", "profile": "debug"}, {"suite": "slice", "profile": "release"}, {"suite": "tokens"}],
+        "level_text": "Proved in Coq for every token list of slash-free tokens (hence every valid pointer) and ALL bounds over N (up to and beyond usize::MAX): each of the five token-counting loops of slice.rs is characterised "
+                      "by a loop lemma generalised over its counters; get(a..b) is Some iff a<=b<=n and a<n, a.. iff a<n, ..b iff b<=n, a..=b iff a<=b<n, ..=b iff b<n, .. always (the crate's rule, e.g. n..n is None); the nine Bound "
+                      "pairings reduce to these with Excluded(s) as a start meaning s+1 CHECKED (usize::MAX -> None, never Panic, never a wrapped start); every Some result is the byte range (off a, off b) whose content is exactly the "
+                      "pointer of the denoted token sub-list and a valid pointer; split_at(k) is Some iff byte k is '/', iff k = off j, with pieces re-concatenating to p; split_front/split_back/parent against the token list; "
+                      "the loop counters never exceed |p| (so unbounded N models usize faithfully). Tie: 341 pointers x every index form and all 289 Bound pairings over {0..5, MAX-1, MAX}, every split_at offset, long pointers; debug and release.",
+        "rule": "suite slice: pointers with <= 3 (quick) / 4 (thorough) tokens over {\"\", a, ab~0, ~1} x get(i), a..b, a.., ..b, a..=b, ..=b, .., all (Bound,Bound) pairs with bounds from {0..5, usize::MAX-1, usize::MAX}, split_at at every byte offset and at usize::MAX; "
+                "pointers of up to 1500 random tokens with random bounds; debug and release builds; plus suite tokens for split_front/split_back/parent views; non-trivial = non-root pointer; distinct = distinct case lines",
+    },
     "C20": {
         "pre_proof": c20.pre_proof,
         "special": c20.special,
